@@ -69,7 +69,7 @@ Definition badjump_code : list Z := [96; 4; 53; 96; 119; 87; 0].
 Definition badjump_se : senv :=
   mkSEnv 1 badjump_code (TVar VCaller) (TVar VOrigin) (TVar VValue)
          (map (fun j => (Nat.modulo j 32, TVar (VArg (Nat.div j 32)))) (seq 0 64)) false 1
-         (mkBlock 0 31337 0 0 0 1 1) [].
+         (mkBlock 0 31337 0 0 0 1 1 []) [].
 Definition always_unknown (p : list cond) (c : term) (b : bool) : Z := R_UNKNOWN.
 
 Example C01_badjump_repaired :
@@ -87,7 +87,7 @@ Definition demo_code : list Z := [96; 4; 53; 96; 9; 87; 96; 7; 0; 91; 96; 1; 95;
 Definition demo_se : senv :=
   mkSEnv 1 demo_code (TVar VCaller) (TVar VOrigin) (TVar VValue)
          (map (fun j => (Nat.modulo j 32, TVar (VArg (Nat.div j 32)))) (seq 0 64)) false 1
-         (mkBlock 0 31337 0 0 0 1 1) [].
+         (mkBlock 0 31337 0 0 0 1 1 []) [].
 Example C01_nonvacuous :
   length (fst (sexec 1048576 demo_se always_unknown 2 20 init_sstate)) = 2%nat /\
   snd (sexec 1048576 demo_se always_unknown 2 20 init_sstate) = false /\
